@@ -18,6 +18,7 @@ From RU Require Proofs.C15_Ser.
 From RU Require Import Proofs.C02_SetHostFrame Proofs.C02_SetHostCanon Proofs.C02_SetScheme Proofs.C02_PathSetter Proofs.C02_SetPath Proofs.C02_Reach4.
 From RU Require Import Proofs.C02_Stmt4 Proofs.C02_QHost Proofs.C02_SetHostNone Proofs.C02_SetPathNoAuth Proofs.C02_SetPathOpaque Proofs.C02_Reach5.
 From RU Require Import Proofs.C02_JoinAbs Proofs.C02_JoinPath Proofs.C02_Segments Proofs.C02_SegmentsCanon Proofs.C02_Reach6.
+From RU Require Import Proofs.C02_Ovr Proofs.C02_Reach7.
 Open Scope string_scope.
 Open Scope N_scope.
 Open Scope list_scope.
@@ -1349,6 +1350,132 @@ Example C02_reach_partial5_inhabited :
      | POk bu => abs_ref bu (B "https:x") && abs_ref bu (B "zz:/.//p") && negb (abs_ref bu (B "http:x")) && abs_ref bu (B "http://x")
      | _ => false end = true.
 Proof. exact reach5_example. Qed.
+
+(* ---------- O. any encoding override; same-scheme special references ("http:x" against an http base) ---------- *)
+(* O.1  G2: the query state with an ARBITRARY encoding override (no premise on the function, not even that its values
+   are bytes) writes text free of every byte of the scheme kind's query set: percent-encoded text never contains a
+   byte of its own set.  So what it writes is canonical query text and the (UTF-8) re-parse stores it unchanged. *)
+Theorem C02_percent_encode_clean : forall S bs, set_stable S = true -> clean S (pe_display S bs) = true.
+Proof. exact pe_display_clean. Qed.
+Print Assumptions C02_percent_encode_clean.
+
+Theorem C02_query_fragment_any_override : forall ovr st se ser l s' qs fs, usv_list l ->
+  parse_query_and_fragment ovr CUrlParser st se ser l = POk (s', qs, fs) ->
+  exists q f, s' = ser ++ qf_text q f
+  /\ qs = qf_qs (nlen ser) q /\ fs = qf_fs (nlen ser) q f
+  /\ opt_le qs U32_MAX_P /\ opt_le fs U32_MAX_P
+  /\ opt_clean (query_set st) q /\ opt_clean T_FRAGMENT f.
+Proof. exact pqf_out_g. Qed.
+Print Assumptions C02_query_fragment_any_override.
+
+(* O.2  C02_parse_Canon without its premise on the override *)
+Theorem C02_parse_Canon_any_override : forall dbg hp hpo hd, HostRT hp hpo hd -> host_above hp hpo hd -> forall ovr input u,
+  usv_list input -> nonfile_input input = true ->
+  parse_url dbg hp hpo hd ovr None input = POk u -> Canon hp hpo hd u.
+Proof. exact parse_Canon_g. Qed.
+Print Assumptions C02_parse_Canon_any_override.
+
+(* O.3  EVERY arm of the relative state (empty, '#', '?', scheme-relative, path-absolute, path-relative) on a canonical
+   base with a special scheme, any override, for ANY text l handed to it - also the text behind "http:" *)
+Theorem C02_relative_state_special : forall dbg hp hpo hd, HostRT hp hpo hd -> host_above hp hpo hd -> forall ovr b l u,
+  Canon hp hpo hd b -> scheme_type_of (b_scheme b) = STSpecialNotFile -> usv_list l ->
+  parse_relative dbg hp hpo hd ovr CUrlParser STSpecialNotFile b l = POk u -> Canon hp hpo hd u.
+Proof. exact rel_special_Canon. Qed.
+Print Assumptions C02_relative_state_special.
+
+(* O.4  joins: every scheme-less reference, and every reference with a non-file scheme - base-ignoring (abs_ref) or
+   carrying the special scheme of the base followed by fewer than two slashes (same_ref; the two classes exhaust
+   nonfile_input: C02_nonfile_abs_or_same) - against a canonical base, any override *)
+Theorem C02_join_rel_Canon_any_override : forall dbg hp hpo hd, HostRT hp hpo hd -> host_above hp hpo hd -> forall ovr b input u,
+  Canon hp hpo hd b -> usv_list input -> rel_ref input = true ->
+  parse_url dbg hp hpo hd ovr (Some b) input = POk u -> Canon hp hpo hd u.
+Proof. exact join_rel_Canon_g. Qed.
+Print Assumptions C02_join_rel_Canon_any_override.
+
+Theorem C02_join_same_scheme_Canon : forall dbg hp hpo hd, HostRT hp hpo hd -> host_above hp hpo hd -> forall ovr b input u,
+  Canon hp hpo hd b -> usv_list input -> same_ref b input = true ->
+  parse_url dbg hp hpo hd ovr (Some b) input = POk u -> Canon hp hpo hd u.
+Proof. exact join_same_Canon_g. Qed.
+Print Assumptions C02_join_same_scheme_Canon.
+
+Theorem C02_nonfile_abs_or_same : forall b input, nonfile_input input = true ->
+  abs_ref b input = true \/ same_ref b input = true.
+Proof. exact nonfile_abs_or_same. Qed.
+Print Assumptions C02_nonfile_abs_or_same.
+
+Theorem C02_join_nonfile_Canon : forall dbg hp hpo hd, HostRT hp hpo hd -> host_above hp hpo hd -> forall ovr b input u,
+  Canon hp hpo hd b -> usv_list input -> nonfile_input input = true ->
+  parse_url dbg hp hpo hd ovr (Some b) input = POk u -> Canon hp hpo hd u.
+Proof. exact join_nonfile_Canon_g. Qed.
+Print Assumptions C02_join_nonfile_Canon.
+
+(* O.5  C02_statement4 restricted to everything except the file scheme: histories of parse (no base, non-file scheme,
+   ANY encoding override) ;; joins with EVERY reference that has no scheme or a non-file scheme (any override; a
+   reference is of one of three kinds: C02_ref_trichotomy) ;; joins of ANY Reachable4 record (file records included)
+   with a base-ignoring absolute reference ;; every operation of the setter model outside known_step3 ;;
+   query_pairs_mut sessions.  Still missing for C02_statement4: file RESULTS only (class (v): parse of file inputs,
+   file-scheme references, scheme-less references against file bases, mutators / query_pairs_mut on file records). *)
+Theorem C02_reach_partial6 : forall dbg hp hpo hd, HostOK2 hp hpo hd -> host_nonempty hp hpo -> forall u,
+  ReachC6 dbg hp hpo hd u -> Fixpoint_of_reparse dbg hp hpo hd u /\ wf_b u = true /\ ascii (ser u).
+Proof. exact reach_partial6. Qed.
+Check C02_reach_partial6 : forall dbg hp hpo hd, HostOK2 hp hpo hd -> host_nonempty hp hpo -> forall u,
+  ReachC6 dbg hp hpo hd u ->
+  parse_url dbg hp hpo hd None None (utf8_lossy (ser u)) = POk u /\ wf_b u = true /\ ascii (ser u).
+Print Assumptions C02_reach_partial6.
+
+Theorem C02_reach_partial6_in_statement : forall dbg hp hpo hd, HostOK2 hp hpo hd -> host_nonempty hp hpo -> forall u,
+  ReachC6 dbg hp hpo hd u -> Reachable4 dbg hp hpo hd u.
+Proof. exact ReachC6_Reachable4. Qed.
+Print Assumptions C02_reach_partial6_in_statement.
+
+Theorem C02_reach_partial6_extends : forall dbg hp hpo hd u, ReachC5 dbg hp hpo hd u -> ReachC6 dbg hp hpo hd u.
+Proof. exact ReachC5_C6. Qed.
+Print Assumptions C02_reach_partial6_extends.
+
+Theorem C02_reach_partial6_absolute : forall dbg hp hpo hd, HostOK2 hp hpo hd -> host_nonempty hp hpo -> forall u b,
+  ReachC6 dbg hp hpo hd u -> parse_url dbg hp hpo hd None (Some b) (utf8_lossy (ser u)) = POk u.
+Proof. exact reach6_absolute. Qed.
+Print Assumptions C02_reach_partial6_absolute.
+
+Theorem C02_reach_partial6_model : forall dbg idna, IdnaOK idna -> forall u,
+  ReachC6 dbg (host_parse idna) host_parse_opaque host_display u ->
+  Fixpoint_of_reparse dbg (host_parse idna) host_parse_opaque host_display u /\ wf_b u = true /\ ascii (ser u).
+Proof. exact reach_partial6_model. Qed.
+Print Assumptions C02_reach_partial6_model.
+
+Theorem C02_ref_trichotomy : forall input, rel_ref input = true \/ nonfile_input input = true \/ file_input input = true.
+Proof. exact ref_trichotomy. Qed.
+Print Assumptions C02_ref_trichotomy.
+
+(* non-vacuity on the host model; ovr_ex puts '#', TAB, 0xE9, an apostrophe and a non-byte in front of each query part *)
+Example C02_reach_partial6_inhabited :
+  match m_parse_o "http://h/p?a b	c#f" with
+  | Some u => list_eqb (ser u) (B "http://h/p?%23%09%E9%27a%20b%23%09%E9%27c#f") && m_fix u | None => false end = true
+  /\ match m_join_o "http://h/a/b?q#f" "http:x y/../z?k" with
+     | Some u => list_eqb (ser u) (B "http://h/a/z?%23%09%E9%27k") && m_fix u | None => false end = true
+  /\ match m_join "http://h/a/b?q#f" "http:x y/../z?k" with
+     | Some u => list_eqb (ser u) (B "http://h/a/z?k") && m_fix u | None => false end = true
+  /\ match m_join "http://h/a/b?q#f" "http:/x" with
+     | Some u => list_eqb (ser u) (B "http://h/x") && m_fix u | None => false end = true
+  /\ match m_join "http://h/a/b?q#f" "http:" with
+     | Some u => list_eqb (ser u) (B "http://h/a/b?q") && m_fix u | None => false end = true
+  /\ match m_join "http://h/a/b?q#f" "http:#g" with
+     | Some u => list_eqb (ser u) (B "http://h/a/b?q#g") && m_fix u | None => false end = true
+  /\ match m_join_o "http://h/a/b?q#f" "?k'" with
+     | Some u => list_eqb (ser u) (B "http://h/a/b?%23%09%E9%27k%27") && m_fix u | None => false end = true
+  /\ match parse_url true mhp host_parse_opaque host_display None None (B "http://h/a/b?q#f") with
+     | POk bu => same_ref bu (B "http:x") && same_ref bu (B "http:/x") && negb (same_ref bu (B "http://x"))
+                 && negb (same_ref bu (B "https:x")) && nonfile_input (B "http:x") && negb (rel_ref (B "http:x"))
+                 && file_input (B "file:x") && negb (nonfile_input (B "file:x"))
+     | _ => false end = true.
+Proof. exact reach6_example. Qed.
+
+Example C02_reach_partial6_filebase :
+  match m_join "file:///a/b" "https:\\x/y z" with
+  | Some u => list_eqb (ser u) (B "https://x/y%20z") && m_fix u | None => false end = true
+  /\ match parse_url true mhp host_parse_opaque host_display None None (B "file:///a/b") with
+     | POk bu => is_file bu && abs_ref bu (B "https:\\x/y z") && negb (Known_file_drive bu) | _ => false end = true.
+Proof. exact reach6_example_filebase. Qed.
 
 (* ---------- F. every excluded class contains a history that is not a fixpoint ---------- *)
 Theorem C02_F_C03_5_refuted :
